@@ -3,7 +3,7 @@ CONSTANTS
   Rules <- RuleIds
   Cfg <- CfgTable
   Atomic = TRUE
-  MaxOps = 4
+  MaxOps = 3
 INVARIANT C14_OwnConfig
 INVARIANT C14_Inductive
 CHECK_DEADLOCK FALSE
